@@ -437,6 +437,12 @@ def run(ctx: Context, rep) -> None:
     rep.rule("C14.release", "LazyPool.__exit__ calls finish_and_reset "
              "unconditionally, first")
     check_exit_resets(ctx, rep, "C14.release")
+    from sa.rules import shared as _sh14
+    _sh14.check_bounded_buffers(ctx, rep, "C14.buffers")
+    # taking finitely many examples terminates: a failing worker reports to
+    # the consumer instead of dying silently (same check as C13.worker)
+    from sa.rules.c07 import check_worker as _cw14
+    _cw14(ctx, rep, "C14.worker")
     # typestate of the native iterator handle: Python reference counting
     # does not release the Rust side (STATIC_ITERATORS keeps the worker
     # threads and their read-ahead alive), so a live handle is only dropped
@@ -483,8 +489,9 @@ def run(ctx: Context, rep) -> None:
                    path=mcfg.describe_path(mcfg.path_to(s, avoiding=exits))
                    if leak else "")
     rep.floor("C14.rust-release", n_st, 1, "stores to the handle outside __init__")
-
-
+    # nothing read from the dataset's files / the environment is memoised
+    from sa.rules import shared as _shm
+    _shm.check_no_memo(ctx, rep, "C14.memo")
 
 _IT = "src/sedpack/io/itertools/itertools.py"
 _DI = "src/sedpack/io/dataset_iteration.py"
